@@ -184,3 +184,51 @@ package keeper
 //@       mapColl(K("vault"), ctx, A.AppId, lv.ExtendedPairId) == old(mapColl(K("vault"), ctx, A.AppId, lv.ExtendedPairId)) - lv.CollateralToken.Amount
 //@   ensures [C01] #c01-close-retires-debt-from-totals: err == nil && a1.1 != nil && lv.InitiatorType == "vault" ==> \
 //@       mapMint(K("vault"), ctx, A.AppId, lv.ExtendedPairId) == old(mapMint(K("vault"), ctx, A.AppId, lv.ExtendedPairId)) - (lv.TargetDebt.Amount - lv.FeeToBeCollected)
+
+// English auction bid, second generation (C11): an accepted bid improves on the standing one by at least the bid factor
+// (surplus: higher payment; debt: smaller lot), the outbid bidder is refunded the standing payment in the same call,
+// custody moves by exactly payment minus refund, and the new standing bid is recorded.
+//@ func (k Keeper) PlaceEnglishAuctionBid
+//@   property C11
+//@   let A = auctionData
+//@   let lv = K("liquidationsV2").GetLockedVault(ctx, auctionData.AppId, auctionData.LockedVaultId).0
+//@   let isDebt = lv.InitiatorType == "debt"
+//@   let had = auctionData.ActiveBiddingId != 0
+//@   let f = k.GetAuctionParams(ctx).0.BidFactor
+//@   let prev = k.GetUserBid(ctx, auctionData.ActiveBiddingId).0.BidderAddress
+//@   let am = modaddr("auctionsV2")
+//@   let dd = auctionData.DebtToken.Denom
+//@   requires #valid: validaddr(bidder) && addr(bidder) != am && (had ==> validaddr(prev) && addr(prev) != am)
+//@   requires #auction-keyed: A.AuctionId == auctionID
+//@   requires #bid-list-consistent: had <==> len(A.BiddingIds) > 0
+//@   requires #bid-ids-allocated: A.ActiveBiddingId <= k.GetUserBidID(ctx) && k.GetUserBidID(ctx) < pow2(64) - 1
+//@   requires #nonneg: f >= 0 && A.DebtToken.Amount >= 0 && A.CollateralToken.Amount >= 0
+//@   letpost a1 = k.GetAuction(ctx, auctionID).0
+//@   ensures #c11-improves-by-factor: result == nil && had && !isDebt ==> bid.Amount * ONE >= A.DebtToken.Amount * ONE + f * A.DebtToken.Amount
+//@   ensures #c11-lot-shrinks-by-factor: result == nil && had && isDebt ==> bid.Amount * ONE <= A.CollateralToken.Amount * ONE - f * A.CollateralToken.Amount
+//@   ensures #c11-first-bid-at-least-reserve: result == nil && !had && !isDebt ==> bid.Amount >= A.DebtToken.Amount
+//@   ensures #c11-first-lot-within-offer: result == nil && !had && isDebt ==> bid.Amount <= A.CollateralToken.Amount
+//@   ensures #c11-bid-denom: result == nil ==> bid.Denom == ite(isDebt, A.CollateralToken.Denom, A.DebtToken.Denom)
+//@   ensures #c11-standing-bid-recorded: result == nil ==> ite(isDebt, a1.CollateralToken.Amount, a1.DebtToken.Amount) == bid.Amount && a1.ActiveBiddingId != 0 && k.GetUserBid(ctx, a1.ActiveBiddingId).0.BidderAddress == bidder
+//@   ensures #c11-custody: result == nil ==> bal(am, dd) == old(bal(am, dd)) + ite(isDebt, A.DebtToken.Amount, bid.Amount) - ite(had, A.DebtToken.Amount, 0)
+//@   ensures #c11-outbid-refunded: result == nil && had && addr(prev) != addr(bidder) ==> bal(addr(prev), dd) == old(bal(addr(prev), dd)) + A.DebtToken.Amount
+//@   ensures #c11-bidder-pays: result == nil && (!had || addr(prev) != addr(bidder)) ==> bal(addr(bidder), dd) == old(bal(addr(bidder), dd)) - ite(isDebt, A.DebtToken.Amount, bid.Amount)
+
+// English auction close (C11): the standing bidder - and nobody else - receives the lot, the standing payment leaves
+// auction custody in full, and the auction is removed.
+//@ func (k Keeper) CloseEnglishAuction
+//@   property C11
+//@   let A = englishAuction
+//@   let lv = K("liquidationsV2").GetLockedVault(ctx, englishAuction.AppId, englishAuction.LockedVaultId).0
+//@   let w = k.GetUserBid(ctx, englishAuction.ActiveBiddingId).0.BidderAddress
+//@   let am = modaddr("auctionsV2")
+//@   let dd = englishAuction.DebtToken.Denom
+//@   let cd = englishAuction.CollateralToken.Denom
+//@   requires #valid: addr(w) != am && addr(w) != modaddr("collectorV1") && addr(w) != modaddr("tokenmint") && dd != cd
+//@   requires #external: validaddr(lv.ExternalKeeperAddress) ==> addr(lv.ExternalKeeperAddress) != am && addr(lv.ExternalKeeperAddress) != addr(w)
+//@   requires #nonneg: A.DebtToken.Amount >= 0 && A.CollateralToken.Amount >= 0
+//@   requires #fee-book: forall a, b :: ite(K("collector").GetNetFeeCollectedData(ctx, a, b).1, K("collector").GetNetFeeCollectedData(ctx, a, b).0.NetFeesCollected, 0) >= 0
+//@   ensures #c11-winner-receives-lot: result == nil && lv.InitiatorType != "debt" ==> bal(addr(w), cd) == old(bal(addr(w), cd)) + A.CollateralToken.Amount
+//@   ensures #c11-payment-leaves-custody: result == nil ==> bal(am, dd) == old(bal(am, dd)) - A.DebtToken.Amount
+//@   ensures #c11-lot-not-kept-in-custody: result == nil ==> bal(am, cd) == old(bal(am, cd)) - ite(lv.InitiatorType == "surplus" || lv.InitiatorType == "debt", 0, A.CollateralToken.Amount)
+//@   ensures #c11-auction-removed: result == nil ==> k.GetAuction(ctx, A.AuctionId).1 != nil
